@@ -30,7 +30,46 @@ type relInfo struct {
 
 // genConfig generates an OPL-shaped configuration: related relations with types,
 // permissions with expressions over includes / permits / traverse / ! / && / ||.
+// classicConfig is the documents-in-folders shape of the OPL documentation, in a few
+// variants: view = viewers || parents.traverse(view) [&& !banned] on Doc and Folder.
+func classicConfig(r *rand.Rand, p EngProfile) []*namespace.Namespace {
+	user := ast.RelationType{Namespace: "User"}
+	grp := ast.RelationType{Namespace: "Group", Relation: "members"}
+	mk := func(name string) *namespace.Namespace {
+		view := &ast.SubjectSetRewrite{Operation: ast.OperatorOr, Children: ast.Children{
+			&ast.ComputedSubjectSet{Relation: "viewers"},
+			&ast.TupleToSubjectSet{Relation: "parents", ComputedSubjectSetRelation: "view"}}}
+		if r.Intn(3) == 0 {
+			view.Children = append(view.Children, &ast.ComputedSubjectSet{Relation: "owners"})
+		}
+		rels := []ast.Relation{
+			{Name: "viewers", Types: []ast.RelationType{user, grp}},
+			{Name: "owners", Types: []ast.RelationType{user, grp}},
+			{Name: "parents", Types: []ast.RelationType{{Namespace: "Folder"}}},
+			{Name: "view", SubjectSetRewrite: view},
+		}
+		if !p.NoNeg && r.Intn(2) == 0 {
+			rels = append(rels, ast.Relation{Name: "ok", SubjectSetRewrite: &ast.SubjectSetRewrite{Operation: ast.OperatorAnd, Children: ast.Children{
+				&ast.ComputedSubjectSet{Relation: "view"},
+				&ast.InvertResult{Child: &ast.ComputedSubjectSet{Relation: "owners"}}}}})
+		} else {
+			rels = append(rels, ast.Relation{Name: "edit", SubjectSetRewrite: &ast.SubjectSetRewrite{Operation: ast.OperatorAnd, Children: ast.Children{
+				&ast.ComputedSubjectSet{Relation: "view"},
+				&ast.TupleToSubjectSet{Relation: "parents", ComputedSubjectSetRelation: "view"}}}})
+		}
+		return &namespace.Namespace{Name: name, Relations: rels}
+	}
+	return []*namespace.Namespace{
+		{Name: "User"},
+		{Name: "Group", Relations: []ast.Relation{{Name: "members", Types: []ast.RelationType{user, grp}}}},
+		mk("Folder"), mk("Doc"),
+	}
+}
+
 func genConfig(r *rand.Rand, p EngProfile) []*namespace.Namespace {
+	if r.Intn(7) == 0 || (p.Wide && r.Intn(2) == 0) {
+		return classicConfig(r, p)
+	}
 	if r.Intn(8) == 0 {
 		// legacy configuration: namespaces without relations
 		var nss []*namespace.Namespace
@@ -328,7 +367,7 @@ func widen(r *rand.Rand, c *EngCase) {
 	const wideObj = 900
 	sub := c.Query.Sub
 	small := append([]Tup(nil), c.Tuples...)
-	if ns, perm, rel, crel, ok := ttuOf(r, c.NSs); ok && r.Intn(2) == 0 {
+	if ns, perm, rel, crel, ok := ttuOf(r, c.NSs); ok && r.Intn(3) != 0 {
 		n := pick(r, []int{101, 102, 103, 130, 200, 201, 250})
 		pns := pick(r, c.NSs).Name
 		for _, t := range small {
@@ -340,7 +379,7 @@ func widen(r *rand.Rand, c *EngCase) {
 		for k := 0; k < n; k++ {
 			c.Tuples = append(c.Tuples, Tup{NS: ns, Obj: wideObj, Rel: rel, Sub: Sub{IsSet: true, NS: pns, Obj: base + k, Rel: ""}})
 		}
-		if r.Intn(3) != 0 {
+		if r.Intn(2) == 0 {
 			// the granting parent: one at a page boundary of the storage order (chosen once the
 			// rows are stored, see BoundaryMember), or any
 			if r.Intn(3) != 0 {
